@@ -47,6 +47,16 @@ var retryRe = regexp.MustCompile(`retrying in ([0-9.]+)(ms|s)`)
 func runAcceptSeq(seq string) (obs string, problems []string) {
 	var logbuf lockedBuffer
 	s := &kmip.Server{Log: log.New(&logbuf, "", 0)}
+	// the session id a connection's handler invocations see (the model numbers served connections 1, 2, 3, ...)
+	var sidMu sync.Mutex
+	sids := map[string]string{}
+	s.SessionAuthHandler = func(conn net.Conn) (interface{}, error) { return conn.(*memConn).name, nil }
+	s.Handle(kmip.OPERATION_DISCOVER_VERSIONS, func(ctx *kmip.RequestContext, item *kmip.RequestBatchItem) (interface{}, error) {
+		sidMu.Lock()
+		sids[fmt.Sprint(ctx.SessionAuth)] = ctx.SessionID
+		sidMu.Unlock()
+		return kmip.DiscoverVersionsResponse{}, nil
+	})
 	lis := newMemListener()
 	served := make(chan error, 1)
 	init := make(chan struct{})
@@ -125,7 +135,9 @@ func runAcceptSeq(seq string) (obs string, problems []string) {
 			lis.noteSent()
 			mc.peerSend(req)
 			if mc.waitUntil(3*time.Second, func() bool { return len(splitMessages(mc.out)) >= 1 || mc.localClosed }) && !mc.localClosed {
-				acts = append(acts, fmt.Sprintf("serve:%d", nconn))
+				sidMu.Lock()
+				acts = append(acts, "serve:"+sids[mc.name])
+				sidMu.Unlock()
 			} else {
 				problems = append(problems, fmt.Sprintf("connection %d was not served", nconn))
 			}
